@@ -5,7 +5,7 @@ NOT_APPLICABLE = {
            "threads or multiprocessing symbolically, and a sequential stub would decide one schedule only (DESIGN §4 C13)",
 }
 ENGINES = [
-    {"name": "pysym", "path": "vf/pysym", "serves_properties": ["C17", "C07", "C06", "C09", "C10"],
+    {"name": "pysym", "path": "vf/pysym", "serves_properties": ["C17", "C07", "C06", "C09", "C10", "C12"],
      "kind_free_text": "bounded path-forking symbolic interpreter over the AST of the real py7zr sources (re-parsed "
                        "from /repo on every run), z3 bit-vectors / integers / ropes; solver verdict per path"},
 ]
@@ -19,6 +19,16 @@ RD_NOTE = ("codec libraries replaced by a decoder contract stub (next r bytes of
            "oracle; archive shapes (entry kinds, folder partition, layout options) are an enumerated bound, all sizes, CRCs, "
            "timestamps, pack sizes symbolic")
 CHECKS = {
+    "C12": dict(engine=B, ref="DESIGN.md §4 C12",
+                technique="bounded symbolic execution of the real read-session methods from the AST, one shard per allowed call "
+                          "sequence, stateful position-tracking decoder stubs cached by the real Folder.get_decompressor; z3 decides",
+                text="For every allowed call sequence of length <= 2 (3 thorough) over listings/test/testzip/extractall/extract/"
+                     "reset, on single- and multi-folder archives opened from a stream (and single-folder by path), with all sizes "
+                     "and CRCs symbolic: every call returns what it returns on a fresh archive (delivery ranges, verdicts None/True "
+                     "on an intact archive, full decode from the start of every folder for testzip), no call hangs on an exhausted "
+                     "decoder, nothing is written to the archive file, and mode 'r' opens the file 'rb' only.",
+                note=RD_NOTE + "; thread-parallel branch (path-opened multi-folder) excluded (C13); sequences ended by exceptions "
+                     "other than those the stubs raise are outside"),
     "C09": dict(engine=B, ref="DESIGN.md §4 C09",
                 technique="bounded symbolic execution of the real extract()/_extract/Worker.extract/_extract_single/_check from the "
                           "AST; the target set is symbolic (one boolean per member); z3 decides path∧¬post",
